@@ -11,5 +11,10 @@ else
         --target "$PWD/.deps" hypothesis
     PYTHONPATH="$PWD/.deps" /venv/bin/python -c 'import hypothesis'
 fi
+# atheris (coverage-guided extra engine of the thorough tier of C01/C03/C05); optional: checks run without it
+if ! PYTHONPATH="$PWD/.deps" /venv/bin/python -c 'import atheris' 2>/dev/null; then
+    PIP_NO_INDEX=1 /venv/bin/pip install --no-index --find-links /opt/veriftools/wheels \
+        --target "$PWD/.deps" atheris >/dev/null 2>&1 || echo "setup: atheris not installed (thorough tier will skip the fuzzing phase)"
+fi
 mkdir -p evidence replays
 echo "setup: ok"
